@@ -10,3 +10,4 @@ import Generated.GoLink
 import Generated.GoCollection
 import Generated.GoSplicer
 import Generated.GoMime
+import Generated.GoJtp
